@@ -277,14 +277,14 @@ def gen_module(
             parse_name,
         )  # type: tuple[Union[FunctionDef, ClassDef]]
     if emit_and_infer_imports:
-        imports: str = "{}{}".format(
-            imports or "",
-            " ".join(
+        imports: str = "\n".join(
+            chain(
+                filter(None, (imports,)),
                 map(
                     to_code,
                     optimise_imports(chain(*map(infer_imports, functions_and_classes))),
-                )
-            ),
+                ),
+            )
         )
 
     # Too many params! - Clean things up for debugging:
